@@ -8,7 +8,8 @@
        literal pieces, file and directory names come from gen/ParamsC14.v;
      * read_some_lines / _read_line_data (comment blocks, column-count rule, malformed lines
        are skipped, only the first block is used), OutputFormatter.parse, PathExtFormatter.parse;
-     * _generate_file_names, the keep_traj_fnames extension of _move_path, the remove/move loop,
+     * output()'s clean-up of the target directory (both variants, see [clean_dir]),
+       _generate_file_names, the keep_traj_fnames extension of _move_path, the remove/move loop,
        on a disk that is a finite map file name -> content;
      * load_path with its assertions, _load_energies_for_path, Path.update_energies.
      Numbers are exact rationals, printed by CodecM.print_fixed ("{:>W.Df}") and parsed by
